@@ -1,0 +1,26 @@
+//go:build verif
+
+// Verification hooks (build tag "verif" only; add-only; nothing here is compiled into normal builds).
+package standard
+
+import (
+	"sort"
+
+	"github.com/attestantio/go-eth2-client/spec/phase0"
+)
+
+// VerifAttested returns a snapshot of the per-epoch "already attested" sets, each sorted.
+func (s *Service) VerifAttested() map[phase0.Epoch][]phase0.ValidatorIndex {
+	s.attestedMu.Lock()
+	defer s.attestedMu.Unlock()
+	res := make(map[phase0.Epoch][]phase0.ValidatorIndex, len(s.attested))
+	for epoch, indices := range s.attested {
+		list := make([]phase0.ValidatorIndex, 0, len(indices))
+		for index := range indices {
+			list = append(list, index)
+		}
+		sort.Slice(list, func(i, j int) bool { return list[i] < list[j] })
+		res[epoch] = list
+	}
+	return res
+}
